@@ -603,14 +603,15 @@ int _vnacal_apply_common(vnacal_apply_args_t vaa)
 	}
     }
     fmin = _vnacal_calibration_get_fmin_bound(calp);
-    if (vaa.vaa_frequency_vector[0] < fmin) {
+    if (vaa.vaa_frequencies > 0 && vaa.vaa_frequency_vector[0] < fmin) {
 	_vnacal_error(vcp, VNAERR_USAGE,
 		"%s: frequency out of bounds %.3e < %.3e", vaa.vaa_function,
 		vaa.vaa_frequency_vector[0], calp->cal_frequency_vector[0]);
 	return -1;
     }
     fmax = _vnacal_calibration_get_fmax_bound(calp);
-    if (vaa.vaa_frequency_vector[vaa.vaa_frequencies - 1] > fmax) {
+    if (vaa.vaa_frequencies > 0 &&
+	    vaa.vaa_frequency_vector[vaa.vaa_frequencies - 1] > fmax) {
 	_vnacal_error(vcp, VNAERR_USAGE,
 		"%s: frequency out of bounds %.3e > %.3e", vaa.vaa_function,
 		vaa.vaa_frequency_vector[vaa.vaa_frequencies - 1],
